@@ -1,4 +1,5 @@
 import AcqVerif.Channel.ConcStep
+import AcqVerif.Channel.Drain
 import AcqVerif.Generated.SyncSkeleton
 /-!
 # C03 — a blocked writer always resumes when space is released or writes are refused
@@ -200,6 +201,14 @@ theorem space_when_drained {s : Sys} {g : Ghost} (hr : Reachable cap s g) (n : N
     (hd : ∀ i, i < s.c.holds.length → nth s.c.holds i = ⟨s.c.head, s.c.cycle⟩) : writeMap s.c n ≠ .block :=
   space_when_caught_up hr.inv n hn hd
 
+/-- **C03.5** — readers that keep reading reach the drained state in a bounded number of calls: with the
+writer quiescent, after two `read_map; read_unmap(all)` rounds the next `read_map` returns an empty
+region and nothing is left unread (`readLen`, `unread`, `readAll` in `Channel/Drain.lean`). -/
+theorem reader_drains_in_three_reads {s : Sys} {g : Ghost} (hr : Reachable cap s g) (i : Nat)
+    (hwf : (Op.rmap i).wf s = true) :
+    readLen (readAll (readAll s i) i) i = 0 ∧ unread (readAll (readAll s i) i) i = 0 :=
+  Channel.reader_drains_in_three_reads hr i hwf
+
 open AcqVerif.Generated.SyncSkeleton in
 /-- **The lock discipline of the real `channel.c`** (table regenerated from the source on every run):
 every access to a field of `struct channel` is made with the channel lock held, except in
@@ -235,5 +244,10 @@ example : (nth (crun demo [0, 0, 0, 1, 1]).threads 1).pc = .notify ∧
 -- after the notify step the writer is woken, re-acquires and returns a region at offset 0
 example : (nth (crun demo [0, 0, 0, 1, 1, 1]).threads 0).pc = .woken := by decide
 example : (crun demo [0, 0, 0, 1, 1, 1, 0]).sys.c.mapped = 8 := by decide
+
+-- a reader two regions behind (rest of the old lap + the new lap): drained after two rounds
+def drainDemo : Sys := run (Sys.init 16) [.join, .wmap 10, .wcommit, .rmap 0, .runmap 0 4, .wmap 4, .wcommit, .wmap 3, .wcommit]
+example : (Op.rmap 0).wf drainDemo = true ∧ readLen drainDemo 0 = 10 ∧ unread drainDemo 0 = 13 ∧
+    readLen (readAll drainDemo 0) 0 = 3 := by decide
 
 end AcqVerif.C03
